@@ -11,6 +11,7 @@ import (
 	goa "goa.design/goa/v3/pkg"
 	"goa.design/goa/v3/verifsim"
 	"verif/sim/engine"
+	"verif/sim/strgen"
 )
 
 // C17: tasks share the process-wide pattern cache under the gated scheduler.
@@ -79,7 +80,7 @@ func runC17(t *verifsim.Tape, cfg engine.Config) *engine.Outcome {
 	for i := range pats {
 		var r rx
 		if bigPool && i >= 4 {
-			r = rxAnch{rxCat{rxLit(fmt.Sprintf("p%d-", i)), rxClass{'a', 'c'}}, true, true}
+			r = strgen.PrefixClass(fmt.Sprintf("p%d-", i))
 		} else {
 			r = genRegex(t, 2)
 		}
